@@ -202,6 +202,11 @@ func c05Scenes(args []string) error {
 	}
 	for rep := 0; rep < reps; rep++ {
 		off := v3.Vec{X: rnd.Float64()*4 - 2, Y: rnd.Float64()*4 - 2, Z: rnd.Float64()*4 - 2}
+		// every other repetition away from the origin, a different octant each time: the bounding box does not
+		// contain the origin (its padding and the lattice origin are taken about the box, not the origin)
+		if rep%2 == 1 {
+			off = off.Add([4]v3.Vec{{X: 10, Y: 20, Z: 30}, {X: 3, Y: -9, Z: 0}, {X: -25, Y: 30, Z: 4}, {X: 6, Y: 9, Z: -14}}[(rep/2)%4])
+		}
 		rot := sdf.RotateX(rnd.Float64() * 3).Mul(sdf.RotateY(rnd.Float64() * 3)).Mul(sdf.RotateZ(rnd.Float64() * 3))
 		m := sdf.Translate3d(off).Mul(rot)
 		sp, _ := sdf.Sphere3D(0.5 + rnd.Float64())
